@@ -206,12 +206,15 @@ func transportScenario(kind int, r *rand.Rand) (lines [][2]string) {
 	doRelease()
 	closeIdle()
 	// census after the scenario's deadlines (DialTimeout 300 ms, IdleTimeout 40 ms, context deadlines ≤ 50 ms) elapsed
-	n := settle(base, 1500*time.Millisecond)
+	n := settle(base, censusBound())
 	rec.add("lk/%d", n)
 	oc := int(atomic.LoadInt32(&open))
-	for i := 0; i < 750 && oc != 0; i++ {
+	for i := 0; i < censusSteps() && oc != 0; i++ {
 		time.Sleep(2 * time.Millisecond)
 		oc = int(atomic.LoadInt32(&open))
+	}
+	if oc != 0 {
+		noteStuck()
 	}
 	rec.add("oc/%d", oc)
 	evs := kafka.VerifStop()
